@@ -776,7 +776,13 @@ impl SharedMemoryManager {
                 ));
             }
 
-            let connection_id = u32::try_from(connections.len()).unwrap_or(0) + 1;
+            // The first id above the number of connections that no living
+            // connection has (ids freed by unregister are not handed out twice
+            // while their neighbours live)
+            let mut connection_id = u32::try_from(connections.len()).unwrap_or(0) + 1;
+            while connections.contains_key(&connection_id) {
+                connection_id = connection_id.wrapping_add(1).max(1);
+            }
             let connection = Connection::new(connection_id);
             connections.insert(connection_id, connection);
             connection_id
